@@ -33,10 +33,37 @@ template<class HB> static void n1_run(const std::vector<std::string>& w)
 	for (size_t i = 0; i <= N; ++i) out += (i ? " " : "") + std::to_string(unsigned(b->mData[i]));
 	puts(out.c_str());
 }
+// n1 3M 0 op...: the same for a REAL BucketOpen2N2<M, hash-code-part getter>: prints mState[0..1], shortHashes[0..M-1], hashProbes of occupied slots
+template<size_t M> static void o2_run(const std::vector<std::string>& w)
+{
+	typedef Elem<8, 4, 0> K;
+	typedef typename momo::HashSet<K, VTraits<K, momo::HashBucketOpen2N2<M>, false, true>, VMem>::Bucket Bk;
+	alignas(Bk) static unsigned char buf[sizeof(Bk)];
+	Bk* b = new (buf) Bk();
+	VMem mm; typename Bk::Params params(mm);
+	for (size_t i = 2; i < w.size(); ++i)
+	{
+		char op = w[i][0]; size_t arg = w[i].size() > 1 ? size_t(std::stoull(w[i].substr(1))) : 0;
+		if (op == 'a') { if (!b->IsFull()) b->AddCrt(params, [] (K* p) { new (p) K(1, 1); }, arg, 4, (arg >> 8) & 7); }
+		else if (op == 'r')
+		{
+			auto bounds = b->GetBounds(params);
+			if (arg < bounds.GetCount()) b->Remove(params, std::next(bounds.GetBegin(), ptrdiff_t(arg)), [] (K&, K&) {});
+		}
+		else if (op == 'c') b->Clear(params);
+		else if (op == 'u') b->UpdateMaxProbe(arg);
+	}
+	std::string out = std::to_string(unsigned(b->mState[0])) + " " + std::to_string(unsigned(b->mState[1]));
+	size_t count = b->mState[1] & 3;
+	for (size_t i = 0; i < M; ++i) out += " " + std::to_string(unsigned(b->mHashData.shortHashes[i]));
+	for (size_t i = 0; i < M; ++i) out += " " + (i >= M - count ? std::to_string(unsigned(b->mHashData.hashProbes[i])) : std::string("-"));
+	puts(out.c_str());
+}
 static void leaf(const std::vector<std::string>& w)
 {
 	if (w.size() < 2) { puts("?leaf"); return; }
 	size_t n = std::stoull(w[0]);
+	if (n == 31) { o2_run<1>(w); return; } if (n == 32) { o2_run<2>(w); return; } if (n == 33) { o2_run<3>(w); return; }
 	if (n == 2) n1_run<N2>(w); else if (n == 4) n1_run<N4>(w); else if (n == 6) n1_run<N6>(w); else if (n == 7) n1_run<N7>(w); else puts("?leaf");
 }
 int main() { return c01_main(regs, sizeof(regs) / sizeof(regs[0]), &leaf); }
